@@ -60,7 +60,44 @@ def gen(rng, tier, i):
     return plan
 
 
-gen = _gen.with_lines(gen, ['_websocket_handler', '_upgrade_websocket', 'handle_get_request', 'send', 'poll', 'writer', 'close'])
+gen = _gen.with_lines(gen, ['websocket_wait', 'websocket_wait', '_websocket_handler', '_upgrade_websocket', 'handle_get_request', 'send', 'poll', 'writer', 'close'],
+                      stalls=(2, 8, 32, 256, 256))
+_gen_general = gen
+
+
+def gen_overlapping_upgrades(rng, tier, i):
+    """Threaded server: a second, correct handshake hard on the heels of a
+    first one whose handler thread loses the CPU inside the handshake (stall
+    run focused on the functions that run it)."""
+    plan = _gen.gen_server_plan(rng, _gen.profile(
+        servers=['threaded'], max_sessions=2, p_ws_open=0.0, p_upgrade=1.0,
+        p_sabotage=0.0, p_second_upgrade=0.0, sends=(0, 4),
+        client_msgs=(0, 2), p_end=0.2, p_app_disconnect=0.0,
+        p_disconnect_all=0.0, p_handler_fault=0.0, p_reject=0.0,
+        p_ws_fault=0.0, p_overlap_polls=0.0, p_pong_misbehave=0.0,
+        p_late_open=0.0))
+    for s in plan['sessions']:
+        ups = s.get('upgrades') or []
+        if ups:
+            ups[0].pop('steps', None)
+            s['upgrades'] = [ups[0], {'t': ups[0]['t'] + rng.choice(
+                [0.01, 0.02, 0.05, 0.1])}]
+    plan['line'] = {'mean': rng.choice([1, 2, 4]), 'max': 4,
+                    'focus': rng.choice([['websocket_wait'],
+                                         ['_websocket_handler'],
+                                         ['websocket_wait',
+                                          '_upgrade_websocket']]),
+                    'stall': rng.choice([32, 256, 256])}
+    return plan
+
+
+def gen(rng, tier, i):
+    if rng.random() < 0.08:
+        return gen_overlapping_upgrades(rng, tier, i)
+    return _gen_general(rng, tier, i)
+
+
+gen.lines = True
 
 def run(plan, sched_values=None, sched_seed=0):
     h = run_server_scenario(plan, sched_values, sched_seed)
